@@ -347,7 +347,43 @@ def view_refcount(F, R):
     R.ob('PAIR', 'PAIR::%s::every-translated-offset-is-registered' % fnkey(f), bool(reg) and bool(oks) and pth is None, 'every path to Ok(address) passes register_offset() (%d site(s))%s' % (len(reg), '' if pth is None else ' -- a path skips it: %s' % pth), reg[0].where if reg else '%s:%s' % (f.file, f.line), f)
 
 
+VALIDATION = ('SizeIsZero', 'SizeTooLarge', 'AlignmentFailure', 'GrowWouldShrink', 'ShrinkWouldGrow')
+
+
+def validation_before_success(F, R):
+    """Every allocator entry point (allocate / grow / shrink of the bump, pool and shm allocators): a request that cannot be satisfied - too
+    large, over-aligned, growing to a smaller size .. - is refused on EVERY path, i.e. the test that guards a validation refusal dominates
+    every `Ok` exit.  A fast path that returns `Ok` before the alignment test hands out memory that does not satisfy the requested layout.
+    (OutOfMemory depends on the allocator state and is not a validation.)"""
+    n = 0
+    pat = r'(iceoryx2_cal::shm_allocator::(pool|bump)_allocator|iceoryx2_bb_memory::(pool|bump|one_chunk)_allocator|iceoryx2_bb_elementary::bump_allocator).*::(allocate|grow|shrink)$'
+    for f in F.find_fns(pat):
+        if f.kind == 'closure':
+            continue
+        oks = f.ok_exit_sites()
+        for e in f.err_exit_sites():
+            if e.i == 'T' or not e.node[2][2]:
+                continue
+            p = f.prov_operand(e.node[2][2][0])
+            v = None
+            if p.root[0] == 'agg' and len(p.root[1][1]) > 2:
+                v = p.root[1][1][2]
+            elif p.root[0] == 'const':
+                v = str(p.root[1][4] or p.root[1][1]).rsplit('::', 1)[-1]
+            if v not in VALIDATION:
+                continue
+            gs = lib.guard_switches(f, e)
+            if not gs:
+                continue
+            n += 1
+            g = f.term_site(gs[0][0])
+            bad = [o for o in oks if not f.dominates(g, o)]
+            R.ob('DOM', 'DOM::%s::%s-test<every-Ok' % (fnkey(f), v), not bad, 'the %s test dominates %d of %d Ok exits%s' % (v, len(oks) - len(bad), len(oks), '' if not bad else ' -- Ok at %s is reachable without it' % bad[0].where), g.where, f)
+    R.floor('validation refusals in allocator entry points', n, 12)
+
+
 def check(F, R, tier):
+    validation_before_success(F, R)
     header_layout_agreement(F, R)
     view_refcount(F, R)
     from . import C08
